@@ -1698,5 +1698,11 @@ func runC14(res *hx.Result, rng *hx.Rng, tier string, outdir string) {
 	res.Notes = append(res.Notes, fmt.Sprintf("several-property families ran with GOMAXPROCS=%d on %d CPUs", runtime.GOMAXPROCS(0), runtime.NumCPU()))
 	c14MultiConcurrent(res, rng, cf, nMulti)
 	c14MultiRace(res, rng, cf, tier)
+	// values of every size class written by service goroutines and clients at once, subscribers on shared connections (c14sizes.go); own random stream
+	if tier == "thorough" {
+		c14Sizes(res, 40, 10)
+	} else {
+		c14Sizes(res, 6, 3)
+	}
 	cf.Flush()
 }
